@@ -76,13 +76,14 @@ class Query:
 
 
 class Unit:
-    def __init__(s, name, cpp, cxxflags=None, ll2c=None, text=None, native_cxxflags=None):
+    def __init__(s, name, cpp, cxxflags=None, ll2c=None, text=None, native_cxxflags=None, real_cxxflags=None):
         s.name = name
         s.cpp = cpp                # path to wrapper TU (or None when text given)
         s.text = text              # generated wrapper text
         s.cxxflags = cxxflags or []
         s.ll2c = ll2c or []
         s.native_cxxflags = native_cxxflags   # if set: the native builds (validation/replay) compile the TU with these flags instead
+        s.real_cxxflags = real_cxxflags       # if set: ONLY the g++ real build uses these flags (e.g. genuine libstdc++ containers instead of lib/stubstd)
         s.built = None
         s.lock = threading.Lock()
 
@@ -112,9 +113,9 @@ class Ctx:
             f.write(text)
         return p
 
-    def unit(s, name, cpp=None, text=None, cxxflags=None, ll2c=None, native_cxxflags=None):
+    def unit(s, name, cpp=None, text=None, cxxflags=None, ll2c=None, native_cxxflags=None, real_cxxflags=None):
         if name not in s.units:
-            s.units[name] = Unit(name, cpp, cxxflags, ll2c, text, native_cxxflags)
+            s.units[name] = Unit(name, cpp, cxxflags, ll2c, text, native_cxxflags, real_cxxflags)
         return s.units[name]
 
     def cleanup(s):
@@ -183,7 +184,8 @@ def build_unit(ctx, u):
                 raise Inconclusive('ll2c (uncut) failed for unit %s:\n%s' % (u.name, err[-4000:]))
         # real build (g++, sanitizers) for translation validation and replay
         gflags = ['-std=c++17', '-O1', '-g', '-fsanitize=address,undefined', '-fno-sanitize-recover=undefined', '-fno-omit-frame-pointer', '-DTAO_PEGTL_VERIF']
-        rc, out, err, dt3 = sh(['g++'] + gflags + npre + incs + ['-c', cpp, '-o', os.path.join(d, 'real.o')])
+        rpre = list(u.real_cxxflags) if getattr(u, 'real_cxxflags', None) is not None else npre
+        rc, out, err, dt3 = sh(['g++'] + gflags + rpre + incs + ['-c', cpp, '-o', os.path.join(d, 'real.o')])
         if rc != 0:
             raise Inconclusive('g++ failed for unit %s:\n%s' % (u.name, err[-4000:]))
         dt4 = 0
